@@ -33,6 +33,8 @@ mod c19_retention;
 mod c13_derive;
 #[cfg(kani)]
 mod c03_c05_framing;
+#[cfg(kani)]
+mod c03_update_path;
 #[cfg(all(kani, feature = "fs_noooo"))]
 mod c05_ratchet_request;
 #[cfg(all(kani, feature = "fs_std"))]
